@@ -256,8 +256,8 @@ class RateStick(ExactSolver):
         if self.D_CJ <= 0:
             raise ValueError('Detonation velocity must be > 0')
 
-        if self.alpha < 0:
-            raise ValueError('Alpha must be >= 0')
+        if self.alpha <= 0:
+            raise ValueError('Alpha must be >= 0 and cannot be zero')
 
         if self.IC not in [1, 2, 3]:
             raise ValueError('IC must be 1, 2 or 3')
